@@ -561,7 +561,9 @@ fn main() {
     ev.merge(ev_b);
     if args.blocks() {
         aliased_axes_lookups(&mut ev);
-        overflowing_span_lookups(&mut ev);
+        // `overflowing_span_lookups` is deliberately not run: C11 is stated for axes whose span
+        // and (len-1)/span are finite; those axes are C05's business ("all axes")
+        let _ = overflowing_span_lookups;
     }
     let expect: u64 = (2..=max_len as u64).map(|l| (l - 1) * (l - 1)).sum();
     let complete = ev.get("exhaustive_combinations") == expect && args.only.is_none();
